@@ -187,6 +187,10 @@ class RealServers:
                     del conn.out[:len(data)]
                     s.sendall(data)
                 if conn.closed_by_server and not conn.out:
+                    if getattr(conn, 'reset', False):
+                        import struct as _st
+                        s.setsockopt(socket.SOL_SOCKET, socket.SO_LINGER, _st.pack('ii', 1, 0))
+                        break                       # close() in the finally clause now sends RST
                     try:
                         s.shutdown(socket.SHUT_WR)
                     except OSError:
